@@ -619,6 +619,151 @@ fn c18_compressed_malformed() {
     finish("c18_compressed_malformed", cases, bad);
 }
 
+fn circuit_rows(config: CircuitConfig, min_rows: usize, x0: u64, with_lut: bool, with_random_access: bool) -> (CircuitData<F, PC, D>, ProofWithPublicInputs<F, PC, D>) {
+    use crate::gates::noop::NoopGate;
+    let mut builder = CircuitBuilder::<F, D>::new(config);
+    let x = builder.add_virtual_target();
+    let mut cur = x;
+    for _ in 0..10 { cur = builder.mul(cur, x); cur = builder.add(cur, x); }
+    builder.register_public_input(x);
+    builder.register_public_input(cur);
+    if with_random_access {
+        let c5 = builder.constant(F::from_canonical_u64(5));
+        let c9 = builder.constant(F::from_canonical_u64(9));
+        let two = builder.two();
+        let v = vec![c5, c9, cur, x];
+        let sel = builder.random_access(two, v);
+        builder.register_public_input(sel);
+    }
+    if with_lut {
+        let table: Vec<(u16, u16)> = (0..256u16).map(|i| (i, i.wrapping_mul(7) ^ 0x55)).collect();
+        let idx = builder.add_lookup_table_from_pairs(std::sync::Arc::new(table));
+        let k = builder.constant(F::from_canonical_u64(77));
+        let out = builder.add_lookup_from_index(k, idx);
+        builder.register_public_input(out);
+    }
+    while builder.num_gates() < min_rows { builder.add_gate(NoopGate, vec![]); }
+    let mut pw = PartialWitness::new();
+    pw.set_target(x, F::from_canonical_u64(x0)).unwrap();
+    let data = builder.build::<PC>();
+    let proof = data.prove(pw).expect("harness: honest proving failed");
+    data.verify(proof.clone()).expect("harness: honest proof rejected");
+    (data, proof)
+}
+
+// C16: compression is lossless and verification-equivalent for many arity schedules, cap heights and dense / repeated queries
+#[test]
+fn c16_compression() {
+    let mut bad = Vec::new();
+    let mut cases = 0usize;
+    let schedules: Vec<(FriReductionStrategy, usize, usize, usize)> = vec![
+        // (strategy, cap_height, num_query_rounds, min_rows)
+        (FriReductionStrategy::Fixed(vec![3, 2]), 4, 400, 1 << 3),
+        (FriReductionStrategy::Fixed(vec![2, 2]), 1, 20, 1 << 4),
+        (FriReductionStrategy::Fixed(vec![3, 1, 2]), 2, 30, 1 << 5),
+        (FriReductionStrategy::Fixed(vec![1, 2, 1, 1]), 0, 40, 1 << 5),
+        (FriReductionStrategy::ConstantArityBits(1, 1), 2, 14, 1 << 3),
+        (FriReductionStrategy::ConstantArityBits(4, 5), 4, 28, 1 << 9),
+        (FriReductionStrategy::ConstantArityBits(3, 2), 3, 60, 1 << 6),
+        (FriReductionStrategy::ConstantArityBits(2, 3), 5, 500, 1 << 4),
+    ];
+    for (k, (strategy, cap_height, nq, rows)) in schedules.into_iter().enumerate() {
+        let mut cfg = CircuitConfig::standard_recursion_config();
+        cfg.security_bits = 3;
+        cfg.fri_config.proof_of_work_bits = 1;
+        cfg.fri_config.cap_height = cap_height;
+        cfg.fri_config.num_query_rounds = nq;
+        cfg.fri_config.reduction_strategy = strategy.clone();
+        let built = catch_unwind(AssertUnwindSafe(|| circuit_rows(cfg, rows, 3 + k as u64 + seed(), k % 2 == 1, false)));
+        let (data, proof) = match built { Ok(x) => x, Err(_) => { continue; } };   // inadmissible combination for this size: not a case
+        cases += 3;
+        let comp = match catch_unwind(AssertUnwindSafe(|| data.compress(proof.clone()))) { Ok(Ok(c)) => c, _ => { bad.push(format!("schedule {k} {strategy:?} cap {cap_height} q {nq}: compress failed")); continue; } };
+        match catch_unwind(AssertUnwindSafe(|| data.decompress(comp.clone()))) {
+            Ok(Ok(p2)) => if p2 != proof { bad.push(format!("schedule {k} {strategy:?} cap {cap_height} q {nq}: decompress(compress(p)) != p")) },
+            Ok(Err(e)) => bad.push(format!("schedule {k} {strategy:?}: decompress error {e}")),
+            Err(_) => bad.push(format!("schedule {k} {strategy:?} cap {cap_height} q {nq}: decompress PANICKED")),
+        }
+        match catch_unwind(AssertUnwindSafe(|| data.verify_compressed(comp.clone()))) {
+            Ok(Ok(())) => {}, Ok(Err(e)) => bad.push(format!("schedule {k} {strategy:?} cap {cap_height} q {nq}: verify_compressed rejects a proof that verify accepts: {e}")),
+            Err(_) => bad.push(format!("schedule {k} {strategy:?} cap {cap_height} q {nq}: verify_compressed PANICKED on an honest proof")),
+        }
+        // byte round trip of the compressed form
+        cases += 1;
+        match crate::plonk::proof::CompressedProofWithPublicInputs::<F, PC, D>::from_bytes(comp.to_bytes(), &data.common) { Ok(c2) => if c2 != comp { bad.push(format!("schedule {k}: compressed bytes round trip changed the proof")) }, Err(e) => bad.push(format!("schedule {k}: compressed from_bytes failed: {e}")) }
+    }
+    // Merkle-path compression alone: all index multisets of a small tree
+    {
+        use crate::hash::path_compression::{compress_merkle_proofs, decompress_merkle_proofs};
+        for h in 1..=4usize { for cap_height in 0..=h {
+            let n = 1usize << h;
+            let leaves: Vec<Vec<F>> = (0..n).map(|i| vec![F::from_canonical_u64(i as u64 + 1); 5]).collect();
+            let tree = MerkleTree::<F, PoseidonHash>::new(leaves.clone(), cap_height);
+            let mut s = 0xDEAD_BEEF_0BAD_F00Du64 ^ seed() ^ ((h * 16 + cap_height) as u64);
+            let mut sets: Vec<Vec<usize>> = vec![(0..n).collect(), (0..n).rev().collect(), vec![0], vec![n - 1, n - 1, 0], (0..n).flat_map(|i| [i, i]).collect()];
+            if h == 3 { sets.push(vec![4, 5, 1, 0, 5]); }
+            for _ in 0..12 { s ^= s << 13; s ^= s >> 7; s ^= s << 17; let len = 1 + (s as usize) % (2 * n); let mut v = Vec::new(); let mut t = s; for _ in 0..len { t ^= t << 13; t ^= t >> 7; t ^= t << 17; v.push((t as usize) % n); } sets.push(v); }
+            for idx in sets {
+                let proofs: Vec<_> = idx.iter().map(|&i| tree.prove(i)).collect();
+                cases += 1;
+                let r = catch_unwind(AssertUnwindSafe(|| { let c = compress_merkle_proofs(cap_height, &idx, &proofs); let lv: Vec<Vec<F>> = idx.iter().map(|&i| leaves[i].clone()).collect(); decompress_merkle_proofs::<F, PoseidonHash>(&lv, &idx, &c, h, cap_height) }));
+                match r { Ok(d) => if d != proofs { bad.push(format!("merkle path compression not lossless: h={h} cap={cap_height} indices={idx:?}")) }, Err(_) => bad.push(format!("merkle path (de)compression PANICKED: h={h} cap={cap_height} indices={idx:?}")) }
+            }
+        } }
+    }
+    finish("c16_compression", cases, bad);
+}
+
+// C17: binary encodings round-trip and restored circuits are interchangeable (lookups, random access, constants included)
+#[test]
+fn c17_circuit_roundtrip() {
+    use crate::util::serialization::{DefaultGateSerializer, DefaultGeneratorSerializer};
+    let mut bad = Vec::new();
+    let mut cases = 0usize;
+    for (tag, lut, ra, rows) in [("plain", false, false, 1usize << 3), ("lookup-256", true, false, 1 << 4), ("random-access", false, true, 1 << 3), ("lookup+random-access", true, true, 1 << 5)] {
+        let mut cfg = CircuitConfig::standard_recursion_config();
+        cfg.fri_config.num_query_rounds = 10; cfg.security_bits = 30;
+        let (data, proof) = circuit_rows(cfg, rows, 21 + seed(), lut, ra);
+        let gs = DefaultGateSerializer;
+        let ws = DefaultGeneratorSerializer::<PC, D> { _phantom: Default::default() };
+        cases += 1;
+        let bytes = match data.to_bytes(&gs, &ws) { Ok(b) => b, Err(_) => { bad.push(format!("{tag}: CircuitData::to_bytes failed")); continue; } };
+        let restored = match catch_unwind(AssertUnwindSafe(|| CircuitData::<F, PC, D>::from_bytes(&bytes, &gs, &ws))) { Ok(Ok(d)) => d, Ok(Err(_)) => { bad.push(format!("{tag}: CircuitData::from_bytes failed")); continue; }, Err(_) => { bad.push(format!("{tag}: CircuitData::from_bytes PANICKED")); continue; } };
+        cases += 6;
+        if restored.common != data.common { bad.push(format!("{tag}: restored common data differ")); }
+        if restored.verifier_only != data.verifier_only { bad.push(format!("{tag}: restored verifier data differ")); }
+        if restored != data { bad.push(format!("{tag}: restored circuit data differ from the original")); }
+        // each accepts the other's proofs
+        if restored.verify(proof.clone()).is_err() { bad.push(format!("{tag}: restored circuit rejects the original circuit's proof")); }
+        let mut pw = PartialWitness::new();
+        pw.set_target(crate::iop::target::Target::VirtualTarget { index: 0 }, F::from_canonical_u64(21 + seed())).unwrap();
+        match catch_unwind(AssertUnwindSafe(|| restored.prove(pw))) {
+            Ok(Ok(p2)) => { if data.verify(p2.clone()).is_err() { bad.push(format!("{tag}: original circuit rejects the restored circuit's proof")); } if p2.public_inputs != proof.public_inputs { bad.push(format!("{tag}: restored circuit computes different public inputs")); } }
+            Ok(Err(e)) => bad.push(format!("{tag}: restored circuit fails to prove: {e}")),
+            Err(_) => bad.push(format!("{tag}: restored circuit PANICKED while proving")),
+        }
+        // proof / verifier data / common data byte round trips
+        match ProofWithPublicInputs::<F, PC, D>::from_bytes(proof.to_bytes(), &data.common) { Ok(p2) => if p2 != proof { bad.push(format!("{tag}: proof bytes round trip differs")) }, Err(_) => bad.push(format!("{tag}: proof from_bytes failed")) }
+        cases += 2;
+        match data.common.to_bytes(&gs).ok().and_then(|b| crate::plonk::circuit_data::CommonCircuitData::<F, D>::from_bytes(b, &gs).ok()) { Some(c2) => if c2 != data.common { bad.push(format!("{tag}: common data bytes round trip differs")) }, None => bad.push(format!("{tag}: common data byte round trip failed")) }
+        match data.verifier_only.to_bytes().ok().and_then(|b| crate::plonk::circuit_data::VerifierOnlyCircuitData::<PC, D>::from_bytes(b).ok()) { Some(v2) => if v2 != data.verifier_only { bad.push(format!("{tag}: verifier-only bytes round trip differs")) }, None => bad.push(format!("{tag}: verifier-only byte round trip failed")) }
+    }
+    finish("c17_circuit_roundtrip", cases, bad);
+}
+
+// C17 (thorough tier only: a 2^14-row circuit is slow in a debug build): query indices above 2^16 survive the byte round trip
+#[test]
+fn t17_large_domain() {
+    let mut bad = Vec::new();
+    let mut cases = 0usize;
+    let mut cfg = CircuitConfig::standard_recursion_config();
+    cfg.fri_config.num_query_rounds = 6; cfg.security_bits = 18; cfg.fri_config.proof_of_work_bits = 1;
+    let (data, proof) = circuit_rows(cfg, 1 << 14, 5, false, false);
+    let comp = data.compress(proof).unwrap();
+    cases += 1;
+    match crate::plonk::proof::CompressedProofWithPublicInputs::<F, PC, D>::from_bytes(comp.to_bytes(), &data.common) { Ok(c2) => if c2 != comp { bad.push("2^17-point domain: compressed proof bytes round trip differs".into()) }, Err(_) => bad.push("2^17-point domain: compressed from_bytes failed".into()) }
+    finish("t17_large_domain", cases, bad);
+}
+
 // C13: optimised Poseidon == naive Poseidon on boundary states (incl. non-canonical representations); sponge chunking
 #[test]
 fn c13_poseidon_and_sponge() {
